@@ -265,6 +265,13 @@ class CallMixin:
             subj = self.lift(subj.t)
         if len(args) > 1 or kwargs:
             raise Unsupported("re method with pos/endpos")
+        if subj.ty.kind == "opt":
+            some, none = self.branch(s, z3.Not(self.is_none(subj)), "re-subject")
+            if none is not None:
+                self.raise_(none, TypeError)
+            if some is None:
+                return []
+            s, subj = some, self.unwrap(subj)
         if method not in ("match", "search", "fullmatch"):
             raise Unsupported(f"re.Pattern.{method} on a symbolic subject")
         key = (pattern.pattern, pattern.flags, method)
